@@ -263,6 +263,25 @@ def r1_overwrite_lineno(ctx):
             spec_a = parse_spec('Lx - Ld + 1' if label == 'rel' else 'Lx')
             rep.ob('C08.R1', ctx.loc(f, c), 'displayed traceback line (%s)' % label, val == spec_a,
                    '%s = %r' % (label, val) if val == spec_a else 'the displayed %s line evaluates to %r but must be %r' % (label, val, spec_a), anchor=f.qualname)
+    # every traceback entry that lies in the doctest is rewritten with ITS OWN line: the number comes from the entry being rewritten, not from the
+    # one number recorded for the failure as a whole (which is None for some failures, and the line of another frame for the rest)
+    rdw = ctx.rd(f)
+    for (c, label, vexpr) in shown:
+        if label != 'rel':
+            continue
+        seen_, work_, uses_fixed = set(), [vexpr], False
+        while work_:
+            e_ = work_.pop()
+            for x in ast.walk(e_):
+                if isinstance(x, ast.Attribute) and x.attr == 'failed_tb_lineno':
+                    uses_fixed = True
+                if isinstance(x, ast.Name) and x.id not in seen_:
+                    seen_.add(x.id)
+                    work_ += [d.value for d in rdw.defs_of(x.id) if isinstance(d.value, ast.AST)]
+        rep.ob('C08.R1', ctx.loc(f, c), 'the displayed line comes from the traceback entry that is rewritten', not uses_fixed,
+               'computed from the line number of the entry itself' if not uses_fixed else
+               'the displayed line is computed from self.failed_tb_lineno, the one number recorded for the whole failure: every doctest frame of the traceback is shown at the line of the '
+               'outermost one, and for failures without a traceback line (failed_tb_lineno is None) rendering the report raises TypeError', anchor=f.qualname)
 
 
 def r1_docstring_start(ctx):
@@ -860,6 +879,7 @@ SA = 'xdoctest/static_analysis.py'
 CO = 'xdoctest/core.py'
 PA = 'xdoctest/parser.py'
 VARIANTS = [
+    fire('every-frame-shown-at-the-recorded-line', 'C08.R1', ('xdoctest/doctest_example.py', "                        rel_lineno = self.failed_part.line_offset + tb_lineno\n", "                        rel_lineno = self.failed_part.line_offset + self.failed_tb_lineno\n")),
     silent('slicer-lifted-out-with-a-tuple-of-its-captures', ('xdoctest/parser.py', '        def slice_example(s1, s2, want_lines=None):\n            exec_lines = exec_source_lines[s1:s2]\n            orig_lines = source_lines[s1:s2]\n            directives = ps1_to_directive.get(s1, None)\n            example = doctest_part.DoctestPart(exec_lines,\n                                               want_lines=want_lines,\n                                               orig_lines=orig_lines,\n                                               line_offset=lineno + s1,\n                                               directives=directives)\n            return example\n', '        chunk = (exec_source_lines, source_lines, ps1_to_directive, lineno)\n'), ('xdoctest/parser.py', 'class DoctestParser:\n', 'def _slice_example(chunk, s1, s2, want_lines=None):\n    exec_source_lines, source_lines, ps1_to_directive, lineno = chunk\n    exec_lines = exec_source_lines[s1:s2]\n    orig_lines = source_lines[s1:s2]\n    directives = ps1_to_directive.get(s1, None)\n    example = doctest_part.DoctestPart(exec_lines,\n                                       want_lines=want_lines,\n                                       orig_lines=orig_lines,\n                                       line_offset=lineno + s1,\n                                       directives=directives)\n    return example\n\n\nclass DoctestParser:\n'), ('xdoctest/parser.py', 'example = slice_example(s1, s2)\n', 'example = _slice_example(chunk, s1, s2)\n', 3), ('xdoctest/parser.py', 'example = slice_example(s1, s2, want_lines)\n', 'example = _slice_example(chunk, s1, s2, want_lines)\n')),
     fire('slicer-lifted-out-with-a-shifted-offset', 'C08.R1', ('xdoctest/parser.py', '        def slice_example(s1, s2, want_lines=None):\n            exec_lines = exec_source_lines[s1:s2]\n            orig_lines = source_lines[s1:s2]\n            directives = ps1_to_directive.get(s1, None)\n            example = doctest_part.DoctestPart(exec_lines,\n                                               want_lines=want_lines,\n                                               orig_lines=orig_lines,\n                                               line_offset=lineno + s1,\n                                               directives=directives)\n            return example\n', '        chunk = (exec_source_lines, source_lines, ps1_to_directive, lineno)\n'), ('xdoctest/parser.py', 'class DoctestParser:\n', 'def _slice_example(chunk, s1, s2, want_lines=None):\n    exec_source_lines, source_lines, ps1_to_directive, lineno = chunk\n    exec_lines = exec_source_lines[s1:s2]\n    orig_lines = source_lines[s1:s2]\n    directives = ps1_to_directive.get(s1, None)\n    example = doctest_part.DoctestPart(exec_lines,\n                                       want_lines=want_lines,\n                                       orig_lines=orig_lines,\n                                       line_offset=lineno + s1 + 1,\n                                       directives=directives)\n    return example\n\n\nclass DoctestParser:\n'), ('xdoctest/parser.py', 'example = slice_example(s1, s2)\n', 'example = _slice_example(chunk, s1, s2)\n', 3), ('xdoctest/parser.py', 'example = slice_example(s1, s2, want_lines)\n', 'example = _slice_example(chunk, s1, s2, want_lines)\n')),
     fire('directive-failure-recorded-without-line', 'C08.R9', (DE, "                    self.failed_tb_lineno = 1  # is this the directive line?\n", "                    pass\n")),
